@@ -1043,4 +1043,436 @@ theorem switch_opts (user : User σ π μ) (c : Nat) (d : Data σ π) (stk : Lis
     | panic q => simp [exec, hr, stepRes, applyCtlR, isOpts]
     | ok r => simp [opt_post, exec, hr, stepRes, applyCtlR, isOpts]
 
+
+/-! #### one pass of `Next` is one `micro` step -/
+
+/-- the helpers as `Next` sees them (two levels of calls below it) -/
+abbrev U2 : User σ π μ := L2 henv mkp prog src
+
+theorem u2_waiting (d : Data σ π) (stack : List SQ) (last : Option Stmt) :
+    U2 henv mkp prog "isWaitingForChoice" .dr [] ⟨d, stack, last⟩ =
+      .ret [.bool ((GR.abs ⟨d, stack, last⟩).waiting.isSome)] ⟨d, stack, last⟩ :=
+  isWaitingForChoice_is_model henv mkp prog (L1 henv mkp prog src) d stack last
+
+theorem u2_nextStatement (d : Data σ π) (q : SQ) (rest : List SQ) (last : Option Stmt) :
+    U2 henv mkp prog "nextStatement" (.qref rest.length) [] ⟨d, q :: rest, last⟩ =
+      match q.stmts[q.ptr]? with
+      | none => .ret [.nil, .bool false] ⟨d, q :: rest, last⟩
+      | some s => .ret [.stmt s, .bool true] ⟨d, { q with ptr := q.ptr + 1 } :: rest, last⟩ :=
+  nextStatement_is_model henv mkp prog (L1 henv mkp prog src) d q rest last
+
+theorem u2_set (d : Data σ π) (stack : List SQ) (last : Option Stmt) (v : String) (op : AssignOp) (e : Expr) :
+    U2 henv mkp prog "executeSetStatement" .dr [.setS v op e] ⟨d, stack, last⟩ =
+      helperRes (exec henv mkp prog d (.set v op e)) stack last :=
+  executeSetStatement_is_model henv mkp prog (L1 henv mkp prog src) d stack last v op e
+
+theorem u2_jump (d : Data σ π) (stack : List SQ) (last : Option Stmt) (e : Expr) :
+    U2 henv mkp prog "executeJumpStatement" .dr [.jumpS e] ⟨d, stack, last⟩ =
+      helperRes (keepLog d.jumpLog (exec henv mkp prog d (.jump e))) stack last :=
+  executeJumpStatement_is_model henv mkp prog (L1 henv mkp prog src) d stack last e
+    (fun d stack last => incrementNodeTracking_is_model henv mkp prog L0 d stack last)
+
+theorem u2_if (d : Data σ π) (stack : List SQ) (last : Option Stmt) (cs : List (Expr × List Stmt)) :
+    U2 henv mkp prog "executeIfStatement" .dr [.ifS cs] ⟨d, stack, last⟩ =
+      helperRes (exec henv mkp prog d (.ifs cs)) stack last :=
+  executeIfStatement_is_model henv mkp prog (L1 henv mkp prog src) d stack last cs
+
+theorem u2_cmd (d : Data σ π) (stack : List SQ) (last : Option Stmt) (es : List Expr) :
+    U2 henv mkp prog "executeCommandStatement" .dr [.cmdS es] ⟨d, stack, last⟩ =
+      cmdRes (exec henv mkp prog d (.cmd es)) stack last :=
+  executeCommandStatement_is_model henv mkp prog (L1 henv mkp prog src) d stack last es
+
+theorem u2_call (d : Data σ π) (stack : List SQ) (last : Option Stmt) (f : String) (es : List Expr) :
+    U2 henv mkp prog "executeCallStatement" .dr [.callS f es] ⟨d, stack, last⟩ =
+      helperRes (exec henv mkp prog d (.call f es)) stack last :=
+  executeCallStatement_is_model henv mkp prog (L1 henv mkp prog src) d stack last f es
+
+/-- a declare statement reaching `Next` would be run as the set statement it abbreviates -/
+theorem u2_declare (d : Data σ π) (stack : List SQ) (last : Option Stmt) (v : String) (e : Expr) :
+    U2 henv mkp prog "executeDeclareStatement" .dr [.declS v e] ⟨d, stack, last⟩ =
+      helperRes (exec henv mkp prog d (.set v .set e)) stack last :=
+  executeDeclareStatement_is_model henv mkp prog (L1 henv mkp prog src) d stack last v e
+    (fun d stack last v op e => executeSetStatement_is_model henv mkp prog L0 d stack last v op e)
+
+/-- `Next(c)`, one pass: the interpreted body of `Next` with the helpers interpreted below it -/
+def nextPass (c : Nat) (g : GR σ π) : SRes σ π μ := L3 henv mkp prog src "Next" .dr [.int c] g
+
+/-- what falls off the end of a function body returns nothing -/
+def finish (r : SRes σ π μ) : SRes σ π μ := match r with | .norm _ g => .ret [] g | r => r
+
+theorem nextPass_eq (c : Nat) (g : GR σ π) :
+    nextPass henv mkp prog c g =
+      finish (execSs henv mkp prog (U2 henv mkp prog) .dr (envN c .nil .nil .nil .nil .nil) fn_Next.body g) := by
+  have h1 : fn_Next.nparams = 1 := rfl
+  have h2 : fn_Next.nlocals = 23 := rfl
+  simp only [nextPass, L3, callDef, find_next, h1, h2]
+  simp [envN, List.replicate, finish]
+  cases execSs henv mkp prog (L2 henv mkp prog src) GV.dr _ fn_Next.body g <;> rfl
+
+def noLog (r : R σ π) : R σ π := { r with d := { r.d with jumpLog := [] } }
+
+/-- a pass of the code agrees with a step of the model: the same output (errors as errors), the same state up to the
+ghost log; where the model continues without output the code calls itself again with the same argument. After a panic
+the data and the stack agree (the model clears its pending choice by convention, the code has no state to speak of) -/
+def Agrees (c : Nat) (r : SRes σ π μ) (m : R σ π × Option (Outcome (Elem μ))) : Prop :=
+  match m.2 with
+  | none => ∃ g', r = .tail [.int c] g' ∧ noLog g'.abs = noLog m.1
+  | some (.ok .ended) => ∃ g', r = .ret [.nil, .nil] g' ∧ noLog g'.abs = noLog m.1
+  | some (.ok .waiting) => ∃ g', r = .ret [.nil, .errWaiting] g' ∧ noLog g'.abs = noLog m.1
+  | some (.ok e) => ∃ g', r = .ret [.elem e, .nil] g' ∧ noLog g'.abs = noLog m.1
+  | some (.err _) => ∃ g', r = .ret [.nil, .err] g' ∧ noLog g'.abs = noLog m.1
+  | some (.panic q) => ∃ g', r = .panic q g' ∧ (noLog g'.abs).d = (noLog m.1).d ∧ g'.stack = m.1.stack
+
+/-- the part of a pass after the choice block: no command pending, no choice pending -/
+theorem next_fetch_is_micro (c : Nat) (d : Data σ π) (stack : List SQ) (last : Option Stmt) (b1 b2 : GV μ)
+    (hp : d.pending = none) (hw : last.bind isOpts = none) :
+    Agrees c (finish (execSs henv mkp prog (U2 henv mkp prog) .dr (envN c b1 b2 .nil .nil .nil)
+        (nextFetch ++ nextSwitch) ⟨d, stack, last⟩))
+      (R.micro henv mkp prog ⟨d, stack, none⟩ c) := by
+  rw [execSs_append, next_fetch henv mkp prog (U2 henv mkp prog) c d stack last b1 b2 (u2_nextStatement henv mkp prog)]
+  have hpoll : poll (μ := μ) d = (d, none) := by simp [poll, hp]
+  have hw2 : ∀ a, last = some a → isOpts a = none := by simpa using hw
+  cases stack with
+  | nil => simpa [finish, R.micro, hpoll, Agrees, GR.abs, noLog] using hw2
+  | cons q rest =>
+    cases hq : q.stmts[q.ptr]? with
+    | none => simpa [finish, R.micro, hpoll, hq, Agrees, GR.abs, noLog] using hw2
+    | some st =>
+      simp only [hq]
+      cases st with
+      | line l =>
+        rw [switch_line]
+        cases hr : renderLine henv mkp d.store d.visited l d.w d.ms with
+        | mk o wm =>
+          obtain ⟨w, ms⟩ := wm
+          cases o <;> simp [finish, R.micro, hpoll, hq, exec, hr, stepRes, Agrees, GR.abs, noLog, isOpts, applyCtlR]
+      | opts os =>
+        rw [switch_opts]
+        cases hr : renderOptions henv mkp d.store d.visited os d.w d.ms with
+        | mk o wm =>
+          obtain ⟨w, ms⟩ := wm
+          cases o <;> simp [finish, R.micro, hpoll, hq, exec, hr, stepRes, Agrees, GR.abs, noLog, isOpts, applyCtlR]
+      | set v o e =>
+        rw [switch_rest henv mkp prog (U2 henv mkp prog) c d _ _ _ _ _ _ (by simp) (by simp) hp (u2_set henv mkp prog)
+          (u2_jump henv mkp prog) (u2_if henv mkp prog) (u2_cmd henv mkp prog) (u2_call henv mkp prog)]
+        simp only [R.micro, hpoll, hq]
+        generalize exec henv mkp prog d (.set v o e) = x
+        obtain ⟨dd, ctl, out⟩ := x
+        cases out with
+        | none => simp [finish, stepRes, keepLog, Agrees, GR.abs, noLog, isOpts]
+        | some o =>
+          cases o with
+          | ok el => cases el <;> simp [finish, stepRes, keepLog, Agrees, GR.abs, noLog, isOpts]
+          | err k => simp [finish, stepRes, keepLog, Agrees, GR.abs, noLog, isOpts]
+          | panic p => simp [finish, stepRes, keepLog, Agrees, GR.abs, noLog, isOpts]
+      | jump e =>
+        rw [switch_rest henv mkp prog (U2 henv mkp prog) c d _ _ _ _ _ _ (by simp) (by simp) hp (u2_set henv mkp prog)
+          (u2_jump henv mkp prog) (u2_if henv mkp prog) (u2_cmd henv mkp prog) (u2_call henv mkp prog)]
+        simp only [R.micro, hpoll, hq]
+        generalize exec henv mkp prog d (.jump e) = x
+        obtain ⟨dd, ctl, out⟩ := x
+        cases out with
+        | none => simp [finish, stepRes, keepLog, Agrees, GR.abs, noLog, isOpts]
+        | some o =>
+          cases o with
+          | ok el => cases el <;> simp [finish, stepRes, keepLog, Agrees, GR.abs, noLog, isOpts]
+          | err k => simp [finish, stepRes, keepLog, Agrees, GR.abs, noLog, isOpts]
+          | panic p => simp [finish, stepRes, keepLog, Agrees, GR.abs, noLog, isOpts]
+      | ifs cs =>
+        rw [switch_rest henv mkp prog (U2 henv mkp prog) c d _ _ _ _ _ _ (by simp) (by simp) hp (u2_set henv mkp prog)
+          (u2_jump henv mkp prog) (u2_if henv mkp prog) (u2_cmd henv mkp prog) (u2_call henv mkp prog)]
+        simp only [R.micro, hpoll, hq]
+        generalize exec henv mkp prog d (.ifs cs) = x
+        obtain ⟨dd, ctl, out⟩ := x
+        cases out with
+        | none => simp [finish, stepRes, keepLog, Agrees, GR.abs, noLog, isOpts]
+        | some o =>
+          cases o with
+          | ok el => cases el <;> simp [finish, stepRes, keepLog, Agrees, GR.abs, noLog, isOpts]
+          | err k => simp [finish, stepRes, keepLog, Agrees, GR.abs, noLog, isOpts]
+          | panic p => simp [finish, stepRes, keepLog, Agrees, GR.abs, noLog, isOpts]
+      | cmd es =>
+        rw [switch_rest henv mkp prog (U2 henv mkp prog) c d _ _ _ _ _ _ (by simp) (by simp) hp (u2_set henv mkp prog)
+          (u2_jump henv mkp prog) (u2_if henv mkp prog) (u2_cmd henv mkp prog) (u2_call henv mkp prog)]
+        simp only [R.micro, hpoll, hq]
+        generalize exec henv mkp prog d (.cmd es) = x
+        obtain ⟨dd, ctl, out⟩ := x
+        cases out with
+        | none => simp [finish, stepRes, keepLog, Agrees, GR.abs, noLog, isOpts]
+        | some o =>
+          cases o with
+          | ok el => cases el <;> simp [finish, stepRes, keepLog, Agrees, GR.abs, noLog, isOpts]
+          | err k => simp [finish, stepRes, keepLog, Agrees, GR.abs, noLog, isOpts]
+          | panic p => simp [finish, stepRes, keepLog, Agrees, GR.abs, noLog, isOpts]
+      | call f es =>
+        rw [switch_rest henv mkp prog (U2 henv mkp prog) c d _ _ _ _ _ _ (by simp) (by simp) hp (u2_set henv mkp prog)
+          (u2_jump henv mkp prog) (u2_if henv mkp prog) (u2_cmd henv mkp prog) (u2_call henv mkp prog)]
+        simp only [R.micro, hpoll, hq]
+        generalize exec henv mkp prog d (.call f es) = x
+        obtain ⟨dd, ctl, out⟩ := x
+        cases out with
+        | none => simp [finish, stepRes, keepLog, Agrees, GR.abs, noLog, isOpts]
+        | some o =>
+          cases o with
+          | ok el => cases el <;> simp [finish, stepRes, keepLog, Agrees, GR.abs, noLog, isOpts]
+          | err k => simp [finish, stepRes, keepLog, Agrees, GR.abs, noLog, isOpts]
+          | panic p => simp [finish, stepRes, keepLog, Agrees, GR.abs, noLog, isOpts]
+      | empty =>
+        rw [switch_rest henv mkp prog (U2 henv mkp prog) c d _ _ _ _ _ _ (by simp) (by simp) hp (u2_set henv mkp prog)
+          (u2_jump henv mkp prog) (u2_if henv mkp prog) (u2_cmd henv mkp prog) (u2_call henv mkp prog)]
+        simp only [R.micro, hpoll, hq]
+        generalize exec henv mkp prog d (.empty) = x
+        obtain ⟨dd, ctl, out⟩ := x
+        cases out with
+        | none => simp [finish, stepRes, keepLog, Agrees, GR.abs, noLog, isOpts]
+        | some o =>
+          cases o with
+          | ok el => cases el <;> simp [finish, stepRes, keepLog, Agrees, GR.abs, noLog, isOpts]
+          | err k => simp [finish, stepRes, keepLog, Agrees, GR.abs, noLog, isOpts]
+          | panic p => simp [finish, stepRes, keepLog, Agrees, GR.abs, noLog, isOpts]
+
+
+theorem micro_polled (d d' : Data σ π) (stack : List SQ) (w : Option (List (List Stmt))) (c : Nat)
+    (h1 : poll (μ := μ) d = (d', none)) (h2 : poll (μ := μ) d' = (d', none)) :
+    R.micro henv mkp prog ⟨d, stack, w⟩ c = R.micro henv mkp prog ⟨d', stack, w⟩ c := by
+  simp [R.micro, h1, h2]
+
+/-- after the `select`, no choice pending -/
+theorem next_tail_is_micro (c : Nat) (d : Data σ π) (stack : List SQ) (last : Option Stmt) (b1 : GV μ)
+    (hp : d.pending = none) (hw : last.bind isOpts = none) :
+    Agrees c (finish (execSs henv mkp prog (U2 henv mkp prog) .dr (envN c b1 .nil .nil .nil .nil)
+        (nextChoice ++ (nextFetch ++ nextSwitch)) ⟨d, stack, last⟩))
+      (R.micro henv mkp prog ⟨d, stack, none⟩ c) := by
+  obtain ⟨b2, hc⟩ := next_choice henv mkp prog (U2 henv mkp prog) c d stack last b1 (u2_waiting henv mkp prog)
+  rw [execSs_append, hc, hw]
+  exact next_fetch_is_micro henv mkp prog c d stack last b1 b2 hp hw
+
+/-- after the `select`, a choice pending: the choice block is one `micro` step (the chosen body pushed unless empty,
+the choice forgotten; an index out of range is the panic, nothing changed), the rest of the pass a second one -/
+theorem next_tail_with_choice (c : Nat) (d : Data σ π) (stack : List SQ) (os : List (LineSpec × List Stmt)) (b1 : GV μ)
+    (hp : d.pending = none) :
+    Agrees c (finish (execSs henv mkp prog (U2 henv mkp prog) .dr (envN c b1 .nil .nil .nil .nil)
+        (nextChoice ++ (nextFetch ++ nextSwitch)) ⟨d, stack, some (.opts os)⟩))
+      (match R.micro henv mkp prog ⟨d, stack, isOpts (.opts os)⟩ c with
+       | (r', none) => R.micro henv mkp prog r' c
+       | x => x) := by
+  obtain ⟨b2, hc⟩ := next_choice henv mkp prog (U2 henv mkp prog) c d stack (some (.opts os)) b1 (u2_waiting henv mkp prog)
+  have hpoll : poll (μ := μ) d = (d, none) := by simp [poll, hp]
+  rw [execSs_append, hc]
+  cases ho : os[c]? with
+  | none => simp [isOpts, ho, finish, R.micro, hpoll, Agrees, GR.abs, noLog]
+  | some lb =>
+    obtain ⟨l, b⟩ := lb
+    by_cases hb : b.length = 0
+    · have hm : (match R.micro henv mkp prog ⟨d, stack, isOpts (.opts os)⟩ c with
+          | (r', none) => R.micro henv mkp prog r' c
+          | x => x) = R.micro henv mkp prog ⟨d, stack, none⟩ c := by
+        simp [R.micro, hpoll, isOpts, ho, hb]
+      rw [hm]
+      simp only [Option.bind, isOpts, List.getElem?_map, ho, Option.map, hb, ne_eq, not_true_eq_false, ite_false]
+      exact next_fetch_is_micro henv mkp prog c d stack none b1 b2 hp rfl
+    · have hm : (match R.micro henv mkp prog ⟨d, stack, isOpts (.opts os)⟩ c with
+          | (r', none) => R.micro henv mkp prog r' c
+          | x => x) = R.micro henv mkp prog ⟨d, ⟨b, 0⟩ :: stack, none⟩ c := by
+        simp [R.micro, hpoll, isOpts, ho, hb]
+      rw [hm]
+      simp only [Option.bind, isOpts, List.getElem?_map, ho, Option.map, hb, ne_eq, not_false_eq_true, ite_true]
+      exact next_fetch_is_micro henv mkp prog c d (⟨b, 0⟩ :: stack) none b1 b2 hp rfl
+
+/-- the `select` at the top of a pass and what follows it -/
+theorem next_pass_gen (c : Nat) (d : Data σ π) (stack : List SQ) (last : Option Stmt)
+    (m : R σ π → R σ π × Option (Outcome (Elem μ)))
+    (hm1 : ∀ d' o, poll (μ := μ) d = (d', some o) → m ⟨d, stack, last.bind isOpts⟩ = (⟨d', stack, last.bind isOpts⟩, some o))
+    (hm2 : ∀ d', poll (μ := μ) d = (d', none) → m ⟨d, stack, last.bind isOpts⟩ = m ⟨d', stack, last.bind isOpts⟩)
+    (ht : ∀ d' b1, d'.pending = none →
+      Agrees c (finish (execSs henv mkp prog (U2 henv mkp prog) .dr (envN c b1 .nil .nil .nil .nil)
+        (nextChoice ++ (nextFetch ++ nextSwitch)) ⟨d', stack, last⟩)) (m ⟨d', stack, last.bind isOpts⟩)) :
+    Agrees c (nextPass henv mkp prog c ⟨d, stack, last⟩) (m (GR.abs ⟨d, stack, last⟩)) := by
+  obtain ⟨b1, hpl⟩ := next_poll henv mkp prog (U2 henv mkp prog) c d stack last
+  rw [nextPass_eq, next_shape, execSs_append, hpl]
+  simp only [GR.abs]
+  cases hp : d.pending with
+  | none =>
+    have hpoll : poll (μ := μ) d = (d, none) := by simp [poll, hp]
+    simp only [hpoll]
+    exact ht d b1 hp
+  | some o =>
+    cases o with
+    | none =>
+      have hpoll : poll (μ := μ) d = (d, some (.ok .waiting)) := by simp [poll, hp]
+      rw [hm1 d _ hpoll]
+      simp [hpoll, finish, Agrees, GR.abs, noLog]
+    | some f =>
+      cases f with
+      | true =>
+        have hpoll : poll (μ := μ) d = ({ d with pending := none }, some (.err .cmdFailed)) := by simp [poll, hp]
+        rw [hm1 _ _ hpoll]
+        simp [hpoll, finish, Agrees, GR.abs, noLog]
+      | false =>
+        have hpoll : poll (μ := μ) d = ({ d with pending := none }, none) := by simp [poll, hp]
+        rw [hm2 _ hpoll]
+        simp only [hpoll]
+        exact ht { d with pending := none } b1 rfl
+
+/-- **one pass of `Next` is one `micro` step** (no choice pending): for every state, program, host, markup pass and
+argument, the interpreted body of `Next` — with every helper interpreted from the source too — returns what `R.micro`
+returns and leaves the state `R.micro` leaves; where `micro` has no output the code tail-calls `Next` with the same
+argument. Panics: aligned — the code panics exactly where the model says `.panic`, with the same site, data and stack. -/
+theorem next_pass_is_micro (c : Nat) (g : GR σ π) (hw : g.abs.waiting = none) :
+    Agrees c (nextPass henv mkp prog c g) (R.micro henv mkp prog g.abs c) := by
+  obtain ⟨d, stack, last⟩ := g
+  have hw' : last.bind isOpts = none := hw
+  refine next_pass_gen henv mkp prog c d stack last (fun r => R.micro henv mkp prog r c) ?_ ?_ ?_
+  · intro d' o h; simp [R.micro, h]
+  · intro d' h
+    have h2 : poll (μ := μ) d' = (d', none) := by
+      unfold poll at h ⊢
+      cases hp : d.pending with
+      | none => simp [hp] at h; subst h; simp [hp]
+      | some o =>
+        cases o with
+        | none => simp [hp] at h
+        | some f => cases f <;> simp [hp] at h; subst h; simp
+    exact micro_polled henv mkp prog d d' stack _ c h h2
+  · intro d' b1 hp
+    rw [hw']
+    exact next_tail_is_micro henv mkp prog c d' stack last b1 hp hw'
+
+/-- **a pass of `Next` that starts with a pending choice is two `micro` steps**: the choice block, then the rest -/
+theorem next_pass_with_choice (c : Nat) (g : GR σ π) (bodies : List (List Stmt)) (hw : g.abs.waiting = some bodies) :
+    Agrees c (nextPass henv mkp prog c g)
+      (match R.micro henv mkp prog g.abs c with
+       | (r', none) => R.micro henv mkp prog r' c
+       | x => x) := by
+  obtain ⟨d, stack, last⟩ := g
+  cases last with
+  | none => simp [GR.abs] at hw
+  | some st =>
+    cases st with
+    | opts os =>
+      refine next_pass_gen henv mkp prog c d stack (some (.opts os))
+        (fun r => match R.micro henv mkp prog r c with | (r', none) => R.micro henv mkp prog r' c | x => x) ?_ ?_ ?_
+      · intro d' o h; simp [R.micro, h]
+      · intro d' h
+        have h2 : poll (μ := μ) d' = (d', none) := by
+          unfold poll at h ⊢
+          cases hp : d.pending with
+          | none => simp [hp] at h; subst h; simp [hp]
+          | some o =>
+            cases o with
+            | none => simp [hp] at h
+            | some f => cases f <;> simp [hp] at h; subst h; simp
+        simp only [micro_polled henv mkp prog d d' stack _ c h h2]
+      · intro d' b1 hp
+        exact next_tail_with_choice henv mkp prog c d' stack os b1 hp
+    | line l => simp [GR.abs, isOpts] at hw
+    | set v o e => simp [GR.abs, isOpts] at hw
+    | jump e => simp [GR.abs, isOpts] at hw
+    | ifs cs => simp [GR.abs, isOpts] at hw
+    | cmd es => simp [GR.abs, isOpts] at hw
+    | call f es => simp [GR.abs, isOpts] at hw
+    | empty => simp [GR.abs, isOpts] at hw
+
+
+/-! ### non-vacuity: the interpreter evaluated on concrete states (kernel reduction, `decide`) -/
+namespace Demo
+
+def henv0 : Env Unit :=
+  { call := fun _ _ s => (.err .unknownFn, s), knows := fun _ => false,
+    cmd := fun n _ s => (if n = "wait" then .pending else .unknown, s) }
+def mk0 : Markup Unit String := { parse := fun ms s => (ms, .ok s) }
+def bodyA : List Stmt := [.set "x" .set (.lit (.bool true)), .jump (.lit (.str "B"))]
+def bodyB : List Stmt := [.line { elems := [.inl "hi"] }, .cmd [.lit (.str "wait")], .set "x" .add (.lit (.bool true))]
+def prog0 : Program := [{ title := "A", body := bodyA }, { title := "B", tracking := "never", body := bodyB }]
+def g0 : GR Unit Unit := ⟨{ cur := "A", w := ⟨(), ⟨#[], 0, 0⟩⟩, ms := () }, [⟨bodyA, 0⟩], none⟩
+
+/-- kind of result, current node, (length, pointer) of the queues, visit counters, variable names, checkpoint names, pending command -/
+structure St where
+  cur : String
+  stack : List (Nat × Nat)
+  visited : List (String × Nat)
+  vars : List String
+  snap : List String
+  pending : Bool
+  deriving DecidableEq
+abbrev Obs := String × St
+def st (g : GR Unit Unit) : St :=
+  ⟨g.d.cur, g.stack.map (fun q => (q.stmts.length, q.ptr)), g.d.visited, g.d.store.map (·.1), g.d.snapVars.map (·.1), g.d.pending.isSome⟩
+def obs (r : SRes Unit Unit String) : Obs :=
+  match r with
+  | .stuck => ("stuck", ⟨"", [], [], [], [], false⟩)
+  | .panic _ g => ("panic", st g)
+  | .norm _ g => ("norm", st g)
+  | .tail [.int _] g => ("again", st g)
+  | .ret [.elem (.line n t _), .nil] g => ("line " ++ n ++ ": " ++ t, st g)
+  | .ret [.nil, .nil] g => ("end", st g)
+  | .ret [.nil, .errWaiting] g => ("waiting", st g)
+  | .ret [.nil, .err] g => ("error", st g)
+  | .ret [.err] g => ("helper error", st g)
+  | .ret [.nil] g => ("helper ok", st g)
+  | .ret _ g => ("other", st g)
+  | .tail _ g => ("other", st g)
+
+def stateOf : SRes Unit Unit String → Option (GR Unit Unit)
+  | .stuck => none
+  | .panic _ g => some g | .norm _ g => some g | .tail _ g => some g | .ret _ g => some g
+
+/-- the `n`-th pass of `Next(0)` from `g`, each pass starting where the previous one stopped -/
+def passes : Nat → GR Unit Unit → SRes Unit Unit String
+  | 0, g => .norm [] g
+  | n + 1, g => match stateOf (passes n g) with
+    | some g => nextPass henv0 mk0 prog0 0 g
+    | none => .stuck
+
+-- pass 1 runs the set statement and calls Next again; pass 2 jumps: A's counter is bumped, the checkpoint takes x, the stack is B's queue
+example : obs (passes 1 g0) = ("again", ⟨"A", [(2, 1)], [], ["x"], [], false⟩) := by decide +kernel
+example : obs (passes 2 g0) = ("again", ⟨"B", [(3, 0)], [("A", 1)], ["x"], ["x"], false⟩) := by decide +kernel
+-- pass 3 presents the line of B; pass 4 dispatches the command, which is still running; pass 5 is refused while it runs
+example : obs (passes 3 g0) = ("line B: hi", ⟨"B", [(3, 1)], [("A", 1)], ["x"], ["x"], false⟩) := by decide +kernel
+example : obs (passes 4 g0) = ("waiting", ⟨"B", [(3, 2)], [("A", 1)], ["x"], ["x"], true⟩) := by decide +kernel
+example : obs (passes 5 g0) = ("waiting", ⟨"B", [(3, 2)], [("A", 1)], ["x"], ["x"], true⟩) := by decide +kernel
+
+def gDone : GR Unit Unit := match stateOf (passes 4 g0) with | some g => { g with d := { g.d with pending := some (some false) } } | none => g0
+-- the command completes: the next pass runs `x += true`, an error that writes nothing; then the queue is popped and the dialogue ends
+example : obs (passes 1 gDone) = ("error", ⟨"B", [(3, 3)], [("A", 1)], ["x"], ["x"], false⟩) := by decide +kernel
+example : obs (passes 2 gDone) = ("again", ⟨"B", [], [("A", 1)], ["x"], ["x"], false⟩) := by decide +kernel
+example : obs (passes 3 gDone) = ("end", ⟨"B", [], [("A", 1)], ["x"], ["x"], false⟩) := by decide +kernel
+
+-- RestoreAt: unknown node = error and nothing changed; a known node rebuilds everything
+def gMid : GR Unit Unit := (stateOf (passes 3 g0)).getD g0
+example : obs (L3 henv0 mk0 prog0 src "RestoreAt" .dr [.snap ⟨[("y", .num (F64.ofInt 1))], [("B", 7)], "nowhere"⟩] gMid) =
+    ("helper error", ⟨"B", [(3, 1)], [("A", 1)], ["x"], ["x"], false⟩) := by decide +kernel
+example : obs (L3 henv0 mk0 prog0 src "RestoreAt" .dr [.snap ⟨[("y", .num (F64.ofInt 1))], [("B", 7)], "A"⟩] gMid) =
+    ("helper ok", ⟨"A", [(2, 0)], [("B", 7)], ["y"], ["y"], false⟩) := by decide +kernel
+
+-- what the translator does not understand has no meaning, and neither has a function that is not there
+example : obs (execS henv0 mk0 prog0 (L2 henv0 mk0 prog0 src) .dr [] (.unsupported "goto") g0) = ("stuck", ⟨"", [], [], [], [], false⟩) := by decide +kernel
+example : obs (L3 henv0 mk0 prog0 src "Previous" .dr [] g0) = ("stuck", ⟨"", [], [], [], [], false⟩) := by decide +kernel
+
+/-- the interpreter is not trivially agreeable: `nextStatement` with `>` for `>=` (the seeded mutant) indexes past the
+end of an exhausted queue — a panic where the source returns `(nil, false)` -/
+def nextStatementGt : FnDef := { fn_nextStatement with body := match fn_nextStatement.body with
+  | .ite i (.bin _ a b) t e :: rest => .ite i (.bin ">" a b) t e :: rest
+  | b => b }
+def gEnd : GR Unit Unit := ⟨g0.d, [⟨bodyA, 2⟩], none⟩
+example : obs (callDef henv0 mk0 prog0 L0 [nextStatementGt] "nextStatement" (.qref 0) [] gEnd) = ("panic", ⟨"A", [(2, 2)], [], [], [], false⟩) ∧
+    obs (callDef henv0 mk0 prog0 L0 src "nextStatement" (.qref 0) [] gEnd) = ("other", ⟨"A", [(2, 2)], [], [], [], false⟩) := by decide +kernel
+
+end Demo
+
 end Ysgo.C01IR
+
+#print axioms Ysgo.C01IR.nextStatement_is_model
+#print axioms Ysgo.C01IR.isWaitingForChoice_is_model
+#print axioms Ysgo.C01IR.executeSetStatement_is_model
+#print axioms Ysgo.C01IR.executeSetStatement_failure_writes_nothing
+#print axioms Ysgo.C01IR.executeDeclareStatement_is_model
+#print axioms Ysgo.C01IR.incrementNodeTracking_is_model
+#print axioms Ysgo.C01IR.executeJumpStatement_is_model
+#print axioms Ysgo.C01IR.executeIfStatement_is_model
+#print axioms Ysgo.C01IR.executeCommandStatement_is_model
+#print axioms Ysgo.C01IR.executeCallStatement_is_model
+#print axioms Ysgo.C01IR.snapshot_is_model
+#print axioms Ysgo.C01IR.restoreAt_is_model
+#print axioms Ysgo.C01IR.next_pass_is_micro
+#print axioms Ysgo.C01IR.next_pass_with_choice
